@@ -276,6 +276,17 @@ class World:
         elif fault == "badutf8":
             i = k % (n + 1)
             p.write_bytes(data[:i] + b"\xff\xfe\xc3" + data[i:])
+        elif fault == "latin1":
+            # a latin-1 byte inside a comment (appended comment line if there is none):
+            # not valid UTF-8, but harmless to a reader that drops undecodable bytes
+            lines = data.split(b"\n")
+            idx = [j for j, ln in enumerate(lines) if ln.lstrip().startswith(b"#")]
+            if idx:
+                j = idx[k % len(idx)]
+                lines[j] = lines[j] + b" caf\xe9"
+                p.write_bytes(b"\n".join(lines))
+            else:
+                p.write_bytes(b"# caf\xe9\n" + data)
         elif fault == "dir":
             p.unlink()
             p.mkdir()
